@@ -85,6 +85,56 @@ def chain_as_fold(prog, kd, ad, T):
             % (okt, okseed, okgen, okre, oksec, okpath, okchain, okinit, okiter))
 
 
+ARG_NEUTRAL = {'help', 'long_help', 'long', 'short', 'num_args', 'action', 'value_parser', 'required', 'value_name', 'display_order', 'help_heading', 'visible_alias',
+               'visible_short_alias', 'alias', 'short_alias', 'next_line_help', 'hide', 'index', 'conflicts_with', 'requires', 'group', 'value_hint', 'into', 'from'}
+
+
+def r19_cli_args(prog, rep):
+    """"for every seed / for every list of derivation paths": the strings reach keygen / keyderive as typed. The clap declarations of `--seed` and `--path`
+    use only presentation / arity / typing builders: nothing that splits, trims, lower-cases or defaults the value (value_delimiter, value_terminator,
+    ignore_case, default_value, env, ..), and the value parser is the plain String one."""
+    nd = 0
+    for body in prog.crates['mlar'].bodies:
+        for b in body.calls():
+            t = b.term
+            if cnorm(t) != 'clap::Arg::new' or not t.args:
+                continue
+            name = const_bytes_of(body, t.args[0])
+            if name not in (b'seed', b'path'):
+                continue
+            nd += 1
+            rep.fn(body)
+            cur = t.dest[0]
+            chain = []
+            for _ in range(20):
+                nxt = None
+                for c in body.calls():
+                    ct = c.term
+                    if ct.args and ct.args[0].place is not None and ct.args[0].place[0] == cur and cnorm(ct).startswith('clap::Arg::') and ct.dest is not None:
+                        nxt = ct
+                        break
+                if nxt is None:
+                    break
+                chain.append(nxt)
+                cur = nxt.dest[0]
+            bad = sorted({c.cmethod for c in chain} - ARG_NEUTRAL)
+            vp = [c for c in chain if c.cmethod == 'value_parser']
+            def plain_string_parser(c):
+                # `value_parser!(String)`: the parser value comes from the String instance of clap's auto parser / ValueParser::string(), no closure or fn item
+                if len(c.args) < 2 or c.args[1].place is None:
+                    return False
+                o_ = origins(body, [c.args[1].place[0]])
+                calls_ = [body.blocks[x].term for x in o_.calls]
+                return any('std::string::String' in ct_.cargs or ct_.cmethod == 'string' for ct_ in calls_) and not any(k_.get('fn') for k_ in o_.consts) and \
+                    not any(a_.rv.j.get('agg') == 'closure' for (_, _, a_) in o_.aggs)
+            okvp = all(plain_string_parser(c) for c in vp)
+            ok = not bad and okvp
+            rep.ob('R19.5', ok, 'R19.5|%s|arg:%s|value-taken-as-typed' % (body.nkey, name.decode()), 'declared with %s' % sorted({c.cmethod for c in chain}) if ok else
+                   'the declaration of --%s transforms or splits the value (%s%s): the string that reaches the key derivation is not the one the user gave'
+                   % (name.decode(), ', '.join(bad) or 'value_parser', '' if okvp else '; value parser is not the plain String parser'), body.loc(b.idx))
+    rep.floor('R19.5', nd, 2, 'declarations of --seed / --path')
+
+
 def run(prog, rep, tier):
     T = json.load(open(TBL))
     mlar = prog.crates['mlar']
@@ -173,6 +223,9 @@ def run(prog, rep, tier):
         rep.ob('R19.1', ok, 'R19.1|mlar::keygen|generator-selection', 'generator = seed.map_or_else(ChaCha20Rng::from_os_rng, seeded closure) feeds generate_keypair' if ok else
                'keygen does not select between from_os_rng and the seeded generator as documented', kg.loc(moe[0].idx) if moe else kg.loc())
         check_outputs(kg, rep, 'R19.1', gk, prog)
+
+    # ---------------- R19.5 the seed and the paths reach the commands as typed
+    r19_cli_args(prog, rep)
 
     # ---------------- R19.2 derive step
     hk = [b for b in mlar.bodies if any(c.term.cmethod == 'new' and 'hkdf::Hkdf' in c.term.cargs for c in b.calls())]
